@@ -32,7 +32,7 @@ class P(vlib.Prop):
             "id / Size(), death flag, Close count and the complete store as bytes after every incarnation; plus decoder/encoder "
             "cases on random bytes and 70 scenarios of 1-3 concurrent Sends of the real retrySender with one Shutdown placed per Send before it / during its export call / "
             "during its back-off / never (class of the error the queue sees, number of attempts). Oracle-only (no cases): 40 histories through the real NewBaseExporter chain "
-            "(persistent queue + retry) shut down with requests in flight and restarted on the same storage; "
+            "(persistent queue + batcher + retry; 1-3 exporters sharing a storage extension keyed by kind/id/name) shut down with pieces in flight and restarted, checked per item; refCountDone/multiDone cases; "
             "300 concurrent end-to-end histories through the real asyncQueue consumers + disabled batcher with deaths emulated at the "
             "storage boundary. A history is "
             "non-trivial when some incarnation died or some request was handed off; distinct = distinct case terms.")
